@@ -80,13 +80,19 @@ def _worker(args):
     out = []
     for k, j in enumerate(states):
         rng = random.Random(seed_ * 67867967 + base + k)
-        g = Gamma(*nets.FAMS[(base + k) % len(nets.FAMS)])
+        fams = nets.FAMS + [("npint", "npint"), ("descset", "int"), ("collide", "int"), ("floatnode", "int")]
+        g = Gamma(*fams[(base + k) % len(fams)])
         vname, emap = rng.choice(obscore.edge_id_variants(j, rng))
         H = obscore.realise(j, g, rng, shuffle=True, edge_id_map=emap)
         st, anom = hg.proj(H, g)
         o, errs = observe(H, g)
         out.append({"rid": f"s{base + k}", "what": f"shape {base + k} ({g.name}/{vname})", "st": st, "obs": o,
                     "anom": sorted(set(anom + errs))})
+        if k % 4 == 0 and obscore.rewire_in_place(H, rng):  # same object, edited, evaluated again
+            st, anom = hg.proj(H, g)
+            o, errs = observe(H, g)
+            out.append({"rid": f"s{base + k}.rewired", "what": f"shape {base + k} rewired in place ({g.name}/{vname})", "st": st,
+                        "obs": o, "anom": sorted(set(anom + errs))})
     return out
 
 
